@@ -2,11 +2,13 @@
 import numpy as np
 
 
-def basis_matrix(t, k, x):
+def basis_matrix(t, k, x, extrapolate=False):
     """All n = len(t)-k B-splines of order k (degree k-1) on knots t at points x (float64).
 
     Textbook recursion with 0/0 := 0; order-1 pieces are half-open [t_j, t_j+1) except that the last
     non-degenerate piece of the breakpoint range [t[k-1], t[n]] is closed on the right.
+    With extrapolate=True the polynomial pieces of the first/last non-degenerate interval of the breakpoint range are
+    continued outside it (what a least-squares fit does with data that lie a rounding error beyond the end knots).
     """
     t = np.asarray(t, dtype=np.float64)
     x = np.asarray(x, dtype=np.float64)
@@ -24,6 +26,14 @@ def basis_matrix(t, k, x):
         for j in range(m):
             if j != jj[-1]:
                 B[x == right, j] = 0.0
+    if extrapolate:
+        inner = [j for j in range(k - 1, n) if t[j] < t[j + 1]]
+        if inner:
+            lo, hi = inner[0], inner[-1]
+            B[x < t[k - 1], :] = 0.0
+            B[x < t[k - 1], lo] = 1.0
+            B[x > t[n], :] = 0.0
+            B[x > t[n], hi] = 1.0
     for kk in range(2, k + 1):
         Bn = np.zeros((x.size, m - kk + 1))
         for j in range(m - kk + 1):
